@@ -204,18 +204,31 @@ example : chunkIdx 10 20 = 1 ∧ chunkIdx 10 21 = 2 ∧ chunkIdx 10 1 = 0 := by 
 /-- a bootstrap replicate (chunks drawn with replacement, `choice` arbitrary) is the spectrum of the resampled data set -/
 theorem C13_boot (pol : Bool) (proj : List ℕ) (chunks : List (List Snp)) (choice : List ℕ) (idx : List ℕ) :
     bootAt pol proj chunks choice idx = spectrumAt pol proj (choice.flatMap fun c => chunks.getD c []) idx := by
-  unfold bootAt
+  have hget : ∀ c, (chunks.map countDict).getD c [] = countDict (chunks.getD c []) := by
+    intro c
+    by_cases h : c < chunks.length
+    · simp [List.getD, List.getElem?_eq_getElem h]
+    · simp [List.getD, List.getElem?_eq_none (Nat.le_of_not_lt h), countDict]
+  unfold bootAt bootAtCd
   induction choice with
   | nil => simp [C13_sum_of_snps]
-  | cons c t ih => rw [sumMap_cons, ih, List.flatMap_cons, C13_additive]
+  | cons c t ih =>
+    rw [sumMap_cons, ih, List.flatMap_cons, C13_additive, hget c]
+    rfl
 
 /-- … so its total is the number of usable SNPs in the chosen chunks, with multiplicity -/
 theorem C13_boot_total (pol : Bool) (proj : List ℕ) (chunks : List (List Snp)) (choice : List ℕ)
     (hlen : ∀ c ∈ chunks, ∀ s ∈ c, s.calls.length = proj.length) :
     boxSum (shapeOf proj) (bootAt pol proj chunks choice)
       = sumMap choice (fun c => (countUsable pol proj (chunks.getD c []) : ℚ)) := by
-  unfold bootAt
-  rw [boxSum_sumMap]
+  have h1 : bootAt pol proj chunks choice
+      = fun idx => sumMap choice (fun c => spectrumAt pol proj (chunks.getD c []) idx) := by
+    funext idx
+    rw [C13_boot]
+    induction choice with
+    | nil => simp [C13_sum_of_snps]
+    | cons c t ih => rw [List.flatMap_cons, C13_additive, ih, sumMap_cons]
+  rw [h1, boxSum_sumMap]
   apply sumMap_congr
   intro c _
   apply C13_total
@@ -346,8 +359,9 @@ theorem C13_fst (ns : List ℕ) (mcols : List (List (List Bool))) (hlen : ∀ co
 theorem C13_source_shape :
     accumulateShapeOk = true ∧ foldIffUnpolarized = true ∧ fromDataDictShapeOk = true ∧ sShapeOk = true ∧
     keyParseShapeOk = true ∧ chunkLoopShapeOk = true ∧ chunkRebuildShapeOk = true ∧ bootstrapShapeOk = true ∧
+    foldMaskShapeOk = true ∧
     (∀ p n i, weightArgs p n i = (p, n, i)) ∧ biallelicLen = 2 ∧ (∀ a b, successfulCalls a b = a + b) ∧
     keyBuilt = ["successful_calls", "derived_calls", "this_snp_polarized"] := by
-  refine ⟨rfl, rfl, rfl, rfl, rfl, rfl, rfl, rfl, fun _ _ _ => rfl, rfl, fun _ _ => rfl, rfl⟩
+  refine ⟨rfl, rfl, rfl, rfl, rfl, rfl, rfl, rfl, rfl, fun _ _ _ => rfl, rfl, fun _ _ => rfl, rfl⟩
 
 end DadiVerif
